@@ -70,7 +70,10 @@ PROPS = {
     "C10": {"jobs": [J("latch", "wl_latch", 300000, 8000000)]},
     "C11": {"jobs": [J("trigger", "wl_trigger", 200000, 5000000)]},
     "C12": {"jobs": [J("rcu.std", "wl_rcu", 120000, 3000000, mode="std", elem=0),
-                     J("rcu.std.blob", "wl_rcu", 40000, 1000000, mode="std", elem=2)]},
+                     J("rcu.std.blob", "wl_rcu", 40000, 1000000, mode="std", elem=2),
+                     # traversals made entirely while a writer is parked inside push/erase
+                     J("rcu.freeze", "wl_rcu", 40000, 1000000, mode="freeze", elem=0),
+                     J("rcu.window", "wl_rcu", 40000, 1000000, mode="window", elem=0)]},
     "C13": {"jobs": [J("rcu.c13.tracked", "wl_rcu", 60000, 1500000, mode="c13", elem=0),
                      J("rcu.c13.string", "wl_rcu", 60000, 1500000, mode="c13", elem=1),
                      J("rcu.c13.blob", "wl_rcu", 40000, 1000000, mode="c13", elem=2)]},
